@@ -87,4 +87,15 @@ theorem source_replay_order_and_cut : Gen.L.replayOrder = ["in", "intra", "out"]
 example : (([AnyTx.i (mkIn 3 ⟨0, 0⟩ 0 .buy 100 500000000000 none none none), AnyTx.x (mkIntra 7 ⟨1, 0⟩ 0 1 100 200000000000 150000000000)]).map Tables.mass).sum < 10 ^ 29 := by
   decide
 
+
+/-- the same with the loop's own `break`: the translated `stops` test decides where the replay ends — over the time-sorted concatenation of the
+    three tables in the order the source concatenates them (`source_replay_order_and_cut`) -/
+theorem source_balance_loop_with_break_is_model (allowNeg : Bool) (t : Int) (ins : List InTx) (outs : List OutTx) (intras : List IntraTx)
+    (hsmall : ((balanceOrder (some t) ins outs intras).map Tables.mass).sum < 10 ^ 29) :
+    match balances allowNeg (some t) ins outs intras with
+    | .ok bs => ∃ s, Tables.forBreak (fun tx : AnyTx => Gen.L.stops tx.ts.day t) (Tables.stepAny allowNeg) {}
+          (sortByTs (·.ts.us) (ins.map AnyTx.i ++ intras.map AnyTx.x ++ outs.map AnyTx.o)) = some s ∧ Gen.L.rows s = bs.map Tables.rowOf
+    | .error _ => Tables.forBreak (fun tx : AnyTx => Gen.L.stops tx.ts.day t) (Tables.stepAny allowNeg) {}
+          (sortByTs (·.ts.us) (ins.map AnyTx.i ++ intras.map AnyTx.x ++ outs.map AnyTx.o)) = none :=
+  Tables.balance_loop_with_break_is_model allowNeg t ins outs intras hsmall
 end Rp2.C07
